@@ -74,6 +74,13 @@ META = {
 }
 
 
+COMMON = ("; in every check, additionally: the configuration calls of every execution are varied in ways the model ignores (arbitrary high "
+          "bits in the enabling argument, configuration from another thread, automatic decoding without a language pointer); a sample of "
+          "the executions is repeated with model-level no-ops woven in (re-injection, mask changed and restored, unrelated decode / create / "
+          "free, refusing allocator during a call) and in the -funsigned-char build; and a sample is re-run as concurrent threads with the "
+          "library's static data write-protected - every call of all of these is judged by TLC against the same specification")
+
+
 def main():
     props = [json.loads(l) for l in open(os.path.join(ROOT, "properties.jsonl"))]
     cks, na = [], []
@@ -88,7 +95,7 @@ def main():
                 "evidence_file": "/verif/evidence/%s.json" % pid,
                 "replay_cmd_template": "./verif replay {path}",
                 "engine": "tlc-trace-validation",
-                "level_claimed": {"category": cat, "text": text, "design_ref": "DESIGN.md section " + ref},
+                "level_claimed": {"category": cat, "text": text + COMMON, "design_ref": "DESIGN.md section " + ref},
                 "level_note": note,
                 "technique": tech,
             })
@@ -106,7 +113,7 @@ def main():
         },
         "engines": [{"name": "tlc-trace-validation", "path": "/verif/verif",
                      "serves_properties": [c["property_id"] for c in cks],
-                     "kind_free_text": "TLA+ contract (spec/Polyseed.tla) + TLC; conformance driver (harness/driver.c) records Begin/dependency/Ret events of the real library; TLC judges every event (spec/PolyseedTrace.tla); full-size lemma families (spec/Theorems*.tla)"}],
+                     "kind_free_text": "TLA+ contract (spec/Polyseed.tla) + TLC; conformance driver (harness/driver.c) records Begin/dependency/Ret events of the real library; TLC judges every event (spec/PolyseedTrace.tla); full-size lemma families (spec/Theorems*.tla); model checking of the contract with bounded pools (spec/PolyseedMC.tla), of the implementation's step structure (spec/PolyseedImpl.tla, with a liveness configuration) and of the threads' footprint model (spec/PolyseedThreads.tla, Apalache inductive invariant)"}],
         "checks": cks,
         "not_applicable": na,
         "notes": "exit 0 = held on everything explored, 1 = VIOLATION line, 2 = infrastructure failure (never a verdict). VERIF_SEED/--seed seeds all random choices; VERIF_REPO overrides the tree location (default /repo).",
